@@ -347,8 +347,12 @@ class History:
             self.cl.add("remove_then_reinit")
         h["removed_here"] = False
 
+    @staticmethod
+    def has_doc(h):
+        """Does the handle hold a document object already (harness bookkeeping only)?"""
+        return getattr(h["job"], "_document", None) is not None
+
     def _doc(self, h):
-        h["doc_touched"] = True
         return h["job"].doc
 
     def op_doc_set(self, op):
@@ -490,7 +494,8 @@ class History:
             # remove() of a job that is already gone "will do nothing" -- and leaves the handle usable again
             # (only for handles that never held a document object: that one is not refreshed)
             gone = oracle.job_id(h["sp"]) not in self.model[h["p"]]
-            if not (h.get("stale_by_remove") and gone and not h.get("doc_touched") and not h.get("lockbroken") and not h.get("broken")):
+            alone = sum(1 for g in self.live() if g["group"] == h["group"]) == 1  # shallow copies share state with their group
+            if not (h.get("stale_by_remove") and gone and alone and not self.has_doc(h) and not h.get("lockbroken") and not h.get("broken")):
                 return
             snap0 = fsutil.snapshot(self.roots[h["p"]])
             try:
@@ -726,7 +731,10 @@ class History:
             return
         if outcome != "ok" and h.get("lockbroken") and outcome.startswith("KeyError") and SP_FILE in outcome:
             self.mm("lock_registry_keyerror", f"{op['op']} through an independent handle whose job was re-keyed by another handle raised {outcome}", dict(detail, lockbroken=True))
-            h["stale"] = h["broken"] = True
+            # the in-memory state point (shared with this handle's shallow copies) is unspecified now
+            for g in self.live():
+                if g["group"] == h["group"]:
+                    g["stale"] = g["broken"] = True
             return
         if outcome != "ok":
             self.mm("rekey_raises", f"{op['op']} {old_sp!r} -> {new_sp!r} raised {outcome}", detail)
@@ -765,10 +773,17 @@ class History:
                     g["lockbroken"] = True
                     g["stale"] = True
         if h["stale"] and h.get("lockbroken"):
-            h["stale"] = h["lockbroken"] = False  # the edit went through: all lazy state was reset
-            self.groups += 1
-            h["group"] = self.groups
+            # the edit went through: all lazy state was reset -- for every shallow copy sharing this
+            # handle's state point instance (they were made stale together and follow together)
+            # The handle and its shallow copies are checked right here (id / path / state point follow),
+            # then retired: other per-handle state (e.g. "directory known") is not refreshed by signac.
             self.cl.add("independent_handle_edit_after_foreign_rekey")
+            for g in self.live():
+                if g["group"] == h["group"]:
+                    if not noop:
+                        self._post_edit_handle_check(g, expect_sp=new_sp, detail=dict(detail, is_editor=g is h))
+                    g["stale"] = g["broken"] = True
+            return
         for g in self.live():
             if g["group"] == h["group"] and not g["stale"]:
                 g["sp"] = json.loads(json.dumps(new_sp))
@@ -999,7 +1014,7 @@ class History:
                             self.mm("handle_sp", f"live handle[{h['kind']}] statepoint {sp!r} / cached {dict(job.cached_statepoint)!r}, model {h['sp']!r}")
                         # the document is only observed through handles that already hold a document object
                         # (observing it would create one, which changes what remove()/init() do later)
-                        if h.get("doc_touched"):
+                        if self.has_doc(h):
                             doc = job.document()
                             if doc != mj["doc"]:
                                 self.mm("handle_doc", f"live handle[{h['kind']}] document {doc!r}, model {mj['doc']!r}")
